@@ -132,7 +132,9 @@ struct Net {
 	hashes: Vec<[u8; 32]>,
 	regs: HashMap<u64, Reg>,
 	hold: Vec<bool>,
-	saves: Vec<Option<(Vec<u8>, u64)>>,
+	/// manager snapshot, monitor-update counter at that time, and whether the node was idle then (events
+	/// handled, links up and empty: nothing of its own can sit in a holding cell)
+	saves: Vec<Option<(Vec<u8>, u64, bool)>>,
 	last_recent: Vec<Value>,
 	run: u64,
 	seed: u64,
@@ -685,7 +687,13 @@ impl Net {
 		true
 	}
 
-	fn op_restart(&mut self, i: usize, mode: &str) -> bool {
+	fn node_idle(&self, i: usize) -> bool {
+		!self.hold[i]
+			&& self.connected.iter().all(|(k, up)| (k.0 != i && k.1 != i) || *up)
+			&& self.queues.iter().all(|(k, q)| (k.0 != i && k.1 != i) || q.is_empty())
+	}
+
+	fn op_restart(&mut self, i: usize, mode: &str, allow_unclean: bool) -> bool {
 		// a snapshot is usable only while no monitor update happened since (otherwise LDK closes
 		// the channels whose monitors are ahead: on-chain resolution is outside this engine)
 		let now = self.persisters[i].updates.load(Ordering::SeqCst);
@@ -693,12 +701,16 @@ impl Net {
 			if mode == "last" { return false; }
 			let bytes = self.nodes[i].node.encode();
 			self.ev(json!({"ev":"save","node":i}));
-			self.saves[i] = Some((bytes, now));
+			let idle = self.node_idle(i);
+			self.saves[i] = Some((bytes, now, idle));
 		}
-		let (bytes, at) = self.saves[i].clone().unwrap();
+		let (bytes, at, idle) = self.saves[i].clone().unwrap();
 		let stale = at != now;
 		if stale && mode != "stale" { return false; }
 		if !stale && mode == "stale" { return false; }
+		// KNOWN finding (see checks/c03.py): a stale snapshot taken while a payment's HTLC waited in a
+		// holding cell makes LDK report the payment failed although the HTLC was sent later
+		if stale && !idle && !allow_unclean { return false; }
 		// the process dies: its connections and everything queued on them are gone
 		for j in 0..self.nodes.len() {
 			if j != i && *self.connected.get(&Self::key(i, j)).unwrap_or(&false) {
@@ -733,7 +745,7 @@ impl Net {
 		}
 		// loading the monitors is not an update
 		self.persisters[i].updates.store(before, Ordering::SeqCst);
-		self.saves[i] = Some((bytes, before));
+		self.saves[i] = Some((bytes, before, idle));
 		self.restarts += 1;
 		self.ev(json!({"ev":"restart","node":i,"stale":stale}));
 		if stale {
@@ -895,12 +907,13 @@ impl Net {
 				if node < n {
 					let bytes = self.nodes[node].node.encode();
 					let now = self.persisters[node].updates.load(Ordering::SeqCst);
-					self.saves[node] = Some((bytes, now));
+					let idle = self.node_idle(node);
+					self.saves[node] = Some((bytes, now, idle));
 					self.ev(json!({"ev":"save","node":node}));
 					true
 				} else { false }
 			},
-			"restart" => node < n && self.op_restart(node, op["use"].as_str().unwrap_or("now")),
+			"restart" => node < n && self.op_restart(node, op["use"].as_str().unwrap_or("now"), op["allow_unclean"].as_bool().unwrap_or(false)),
 			"abandon" => {
 				if node < n {
 					let id = op["id"].as_u64().unwrap_or(0);
